@@ -84,6 +84,69 @@ CHECKS = {
              'every attribute name plus custom names, index absent/0/in range/out of range/negative, all '
              'seven object types, interleaved with other operations.',
         design='DESIGN.md section 3 C15'),
+
+    'C01': dict(
+        category='exploration',
+        technique='runtime monitoring: setter-probed constructor schema of all 170 discovered codec classes, '
+                  'round-trip oracle (field walk + __eq__ + byte equality), purity monitor, decode-first stability '
+                  'on mutated accepted encodings',
+        text='Primitive boundary grid (1194 value x version cells); every codec class with discovered '
+             'constructor schema in all-fields / each-alone / each-missing / random shapes x KMIP 1.0-2.0; whole '
+             'request messages from the request generator and the real server\'s responses. Oracle: write succeeds '
+             'or raises a deliberate validation error; decode(encode(x)) equals x field by field (fields a version '
+             'does not encode are detected by differential encoding and skipped), by __eq__ and by re-encoded '
+             'bytes; encoding is pure; decode-encode-decode is stable for accepted mutated encodings.',
+        design='DESIGN.md section 3 C01'),
+    'C02': dict(
+        category='exploration',
+        technique='runtime monitoring: independent TTLV validator and reference encoder (kv/ttlv_ref.py) applied to '
+                  'every encoding the C01 generators produce and to every byte string a real KmipSession hands to sendall',
+        text='All encodings of the class and message generators are validated (tag/type/length/padding/structure '
+             'length/fixed lengths/boolean/UTF-8); primitive encodings are compared byte for byte with the reference '
+             'encoder; session responses for successes, every error class, parse failures, certificate failures, '
+             'unsupported versions, stale/future time stamps, async/UNDO and oversize replacement are checked against '
+             'the envelope rules and the header-version rule.',
+        design='DESIGN.md section 3 C02'),
+    'C12': dict(
+        category='exploration',
+        technique='runtime monitoring / fault injection: grammar-aware TTLV mutation and raw fuzz frames through a real '
+                  'KmipSession on a fake connection; per-frame response oracle, engine-entry counter, raw-dump frame '
+                  'condition, clean-connection twin for the next valid request, chunking differential',
+        text='Streams bad*-good of consistently framed requests under three recv chunkings; each frame must get exactly '
+             'one well-formed response, an undecodable frame a failed Invalid Message item without engine entry or store '
+             'change, no exception may leave _handle_message_loop, the next valid request must be answered as on a clean '
+             'connection, responses must not depend on chunking, and a response longer than the requested maximum must be '
+             'a Response Too Large error.',
+        design='DESIGN.md section 3 C12'),
+    'C16': dict(
+        category='exploration',
+        technique='runtime monitoring: exhaustive version x operation / attribute / field matrix against frozen spec '
+                  'tables (operation introduction versions, attribute added/removed versions, numeric tag ranges); tag sets '
+                  'of every response observed through the reference decoder',
+        text='Six supported and eight unsupported versions x every enums.Operation member (raw and built requests), '
+             'attribute names reported per version for all seven object types, requests carrying newer-version fields '
+             'under every older version, DiscoverVersions followed by a request under each listed version, Query followed '
+             'by one request per advertised operation.',
+        design='DESIGN.md section 3 C16'),
+    'C17': dict(
+        category='exploration',
+        technique='runtime monitoring: exhaustive configuration product with an independent admission predicate; '
+                  'process_request entry/argument recorder, SQL statement trace and raw-dump frame condition on failing paths',
+        text='10 certificates (absent; 0/1/2 common names; EKU absent/serverAuth/clientAuth/both; real DER built with '
+             'cryptography) x enable_tls_client_auth x 140+ plug-in configurations over 11 stubbed SLUGS behaviours x 5 '
+             'requests: the engine must be entered exactly when the identity conditions hold, with exactly the '
+             'established (user, groups); every failing path answers Authentication Not Successful and issues no SQL.',
+        design='DESIGN.md section 3 C17'),
+    'C19': dict(
+        category='exploration',
+        technique='runtime monitoring: client methods over an in-process transport to the real server; independent '
+                  'decoding of the wire response vs returned value / raised error; tampering transport for failure '
+                  'reasons, missing messages, non-success statuses and truncations',
+        text='17 ProxyKmipClient operations x KMIP 1.0-2.0 x {real success payloads, every ResultReason with messages '
+             'of several lengths or none, pending/undone statuses, truncation at 11 byte classes}; the emitted request '
+             'must decode with the server decoder, a success must return exactly the payload data, a failure must raise '
+             'an operation failure with exactly status/reason/message, a truncated stream must raise.',
+        design='DESIGN.md section 3 C19'),
 }
 
 NOT_YET = {}
